@@ -184,8 +184,13 @@ func c02AllPaths(r *core.Run, pk, msg, sig []byte, v c02Variant) (acc, total int
 	// ... and one batch verifier for the whole tour, Reset between batches as the documentation invites,
 	// alternating between expanded and unexpanded entries, clean batches and batches that need the serial pass
 	rv := ed25519.NewBatchVerifier()
+	var ovar ed25519.Options // callers of the receive-buffer kind also keep ONE Options variable and overwrite its fields per call
 	for i, p := range c02presets {
 		o := &ed25519.Options{Hash: v.hash(), Context: v.ctx, Verify: p}
+		if c02rxOn {
+			ovar = *o
+			o = &ovar
+		}
 		if c02companion != nil {
 			co := &ed25519.Options{Verify: p}
 			rv.Reset()
